@@ -1,3 +1,58 @@
 import JSight.Basic
+import JSight.Model.Ids
+import JSight.Proofs.C09
+/-!
+C09 — interaction id keys.
+
+The serialised key of an interaction is the text of its id (`Model/Ids.lean`).
+HTTP keys determine (method, path) because verbs contain no space; JSON-RPC keys
+do not when method names may contain spaces (defect F13) — the fix is a textual
+collision check on insertion, under which accepted keys never repeat.
+-/
 namespace JSight.C09
+
+/-- the HTTP key determines method and path when the method contains no space
+(true for the five verbs) -/
+theorem http_id_injective (m₁ m₂ p₁ p₂ : Bytes) (h₁ : (32 : UInt8) ∉ m₁) (h₂ : (32 : UInt8) ∉ m₂)
+    (h : httpId m₁ p₁ = httpId m₂ p₂) : m₁ = m₂ ∧ p₁ = p₂ :=
+  prefixed_injective httpPrefix m₁ m₂ p₁ p₂ h₁ h₂ h
+
+theorem verbs_no_space : ∀ v ∈ verbs, (32 : UInt8) ∉ v := by decide
+
+/-- JSON-RPC keys are NOT injective in (name, path) when names may contain
+spaces — the concrete witness of defect F13: name `"a b"`, path `"c"` and
+name `"a"`, path `"b c"` both give `"json-rpc-2.0 a b c"` -/
+theorem rpc_id_not_injective :
+    ∃ n₁ p₁ n₂ p₂, (n₁, p₁) ≠ (n₂, p₂) ∧ rpcId n₁ p₁ = rpcId n₂ p₂ :=
+  ⟨[97, 32, 98], [99], [97], [98, 32, 99], by decide, by decide⟩
+
+/-- … but they are when the method name contains no space -/
+theorem rpc_id_injective (n₁ n₂ p₁ p₂ : Bytes) (h₁ : (32 : UInt8) ∉ n₁) (h₂ : (32 : UInt8) ∉ n₂)
+    (h : rpcId n₁ p₁ = rpcId n₂ p₂) : n₁ = n₂ ∧ p₁ = p₂ :=
+  prefixed_injective rpcPrefix n₁ n₂ p₁ p₂ h₁ h₂ h
+
+/-- an HTTP key and a JSON-RPC key never coincide -/
+theorem http_rpc_disjoint (m p n q : Bytes) : httpId m p ≠ rpcId n q := by
+  intro h
+  simp [httpId, rpcId, httpPrefix, rpcPrefix] at h
+
+/-- with the textual collision check, the serialised interaction keys of an
+accepted document never repeat -/
+theorem no_dup_keys (ks : List Bytes) (res : List Bytes)
+    (h : addInteractions [] ks = some res) : res.Nodup ∧ res = ks := by
+  simpa using addInteractions_spec ks [] res List.nodup_nil h
+
+/-! concrete checks -/
+
+-- "http GET /a"
+example : httpId [71, 69, 84] [47, 97] = [104, 116, 116, 112, 32, 71, 69, 84, 32, 47, 97] := by
+  decide
+-- the F13 witness: both serialise as "json-rpc-2.0 a b c"
+example : rpcId [97, 32, 98] [99] = rpcId [97] [98, 32, 99] := by decide
+-- the collision check refuses the second of two equal keys, accepts distinct ones
+example : addInteractions [] [rpcId [97, 32, 98] [99], rpcId [97] [98, 32, 99]] = none := by
+  decide
+example : addInteractions [] [[1], [2], [3]] = some [[1], [2], [3]] := by decide
+example : addInteractions [] [[1], [2], [1]] = none := by decide
+
 end JSight.C09
